@@ -342,7 +342,7 @@ Section Healthy.
   Lemma inv_step w w' : Inv w -> wstep cfgs d w w' -> Inv w'.
   Proof.
     destruct Hcfg as [Hd Hc]. intros (IC & IS & IP) Hstep.
-    destruct Hstep as [w l1 x l2 Hpool Hmin Hcan | w l1 x l2 i delays st' outs Hpool Hmin Hcan Him Hor Hdl Hs].
+    destruct Hstep as [w l1 x l2 Hpool Hcan | w l1 x l2 i delays st' outs Hpool Hmin Hcan Him Hor Hdl Hs].
     - (* a cancelled timer is skipped *)
       split; [exact IC|]. split; [exact IS|]. cbn [pool nodes cancelled].
       intros e He. assert (He' : In e (pool w)).
